@@ -140,6 +140,9 @@ type pmRequest struct {
 	payload []byte // envelope bytes
 	isGen   bool   // a ServiceGenerator:generate request (consumes a model answer)
 	reaches bool   // ... that reaches the user's generator
+	// the envelope is not a request (neither Call nor OneWay): answered with INVALID_MESSAGE_TYPE
+	// before any handler sees it (finding D92, repaired)
+	notRequest bool
 }
 
 func rawEnv(strict bool, name string, typ byte, seq uint32, body []byte) []byte {
@@ -249,8 +252,8 @@ func (s pmSession) op(chunks [][]byte) string {
 	var gens []string
 	ai := 0
 	for _, r := range s.reqs {
-		if !r.isGen || !s.hasSG {
-			continue
+		if !r.isGen || !s.hasSG || r.notRequest {
+			continue // (an envelope that is not a request never gets as far as the generator)
 		}
 		if r.reaches && ai < len(s.answers) {
 			gens = append(gens, s.answers[ai].text())
@@ -293,12 +296,13 @@ func randomSession(r *rng.R, endWithGoodbye bool) pmSession {
 				}
 				a.files = dedupKeys(a.files)
 			}
-			s.reqs = append(s.reqs, pmRequest{payload: rawEnv(strict, mGenerate, typ, seq, genArgs), isGen: true, reaches: true})
-			if s.hasSG {
+			isReq := typ == etCall || typ == etOneWay
+			s.reqs = append(s.reqs, pmRequest{payload: rawEnv(strict, mGenerate, typ, seq, genArgs), isGen: true, reaches: isReq, notRequest: !isReq})
+			if s.hasSG && isReq {
 				s.answers = append(s.answers, a)
 			}
 		case 4: // generate with malformed arguments: never reaches the user's function
-			s.reqs = append(s.reqs, pmRequest{payload: rawEnv(strict, mGenerate, typ, seq, vStruct(fld(1, vStruct())).Encode(nil)), isGen: true})
+			s.reqs = append(s.reqs, pmRequest{payload: rawEnv(strict, mGenerate, typ, seq, vStruct(fld(1, vStruct())).Encode(nil)), isGen: true, notRequest: typ != etCall && typ != etOneWay})
 		case 5:
 			nm := []string{"Plugin:nope", "Nope:handshake", "handshake", "", ":", "Plugin:", "ServiceGenerator:handshake", "Plugin:goodbye:x"}[r.Intn(8)]
 			s.reqs = append(s.reqs, pmRequest{payload: rawEnv(strict || nm == "", nm, typ, seq, vStruct().Encode(nil))})
